@@ -4,7 +4,10 @@
 mod alloc;
 mod ev;
 mod par;
+mod c03;
 mod c07;
+mod chainx;
+mod ledger;
 mod elem;
 mod fp;
 mod refmmr;
@@ -38,11 +41,15 @@ pub trait Engine {
 }
 
 fn engines() -> Vec<Box<dyn Engine>> {
-	vec![Box::new(c07::C07)]
+	vec![Box::new(c03::C03), Box::new(c07::C07)]
 }
 
 fn main() {
 	let args: Vec<String> = std::env::args().collect();
+	if args.len() >= 2 && args[1] == "dbg03" {
+		dbg03();
+		return;
+	}
 	if args.len() >= 2 && args[1] == "selftest" {
 		selftest();
 		return;
@@ -105,31 +112,50 @@ fn main() {
 	}
 	let start = Instant::now();
 	let only: Option<String> = std::env::var("GV_ONLY_PART").ok();
-	let mut parts = vec![];
+	// all parts run concurrently (each part = its own set of worker processes)
+	let mut handles = vec![];
 	for (name, shards) in eng.parts(tier) {
 		if let Some(o) = &only {
 			if o != name {
 				continue;
 			}
 		}
-		let t = Instant::now();
-		let r = if shards <= 1 {
-			eng.run_part(name, tier, 0, 1)
+		let prop2 = prop.clone();
+		let seq = std::env::var("GV_SEQ").is_ok();
+		let h = std::thread::spawn(move || {
+			let eng = engines().into_iter().find(|e| e.id() == prop2).unwrap();
+			let t = Instant::now();
+			let mut r = if shards <= 1 {
+				eng.run_part(name, tier, 0, 1)
+			} else {
+				par::run_sharded(&prop2, name, tier, shards)
+			};
+			r.settle_states();
+			eprintln!(
+				"  part {:<18} evals={:<9} distinct={:<9} states={:<7} trans={:<8} classes={:<4} viol={} {:.1}s",
+				name,
+				r.evaluations,
+				r.distinct,
+				r.states,
+				r.transitions,
+				r.outcomes.len(),
+				r.violations.len(),
+				t.elapsed().as_secs_f64()
+			);
+			(name.to_string(), r)
+		});
+		if seq {
+			handles.push(Ok(h.join().expect("part thread")));
 		} else {
-			par::run_sharded(&prop, name, tier, shards)
-		};
-		eprintln!(
-			"  part {:<18} evals={:<9} distinct={:<9} states={:<7} trans={:<8} classes={:<4} viol={} {:.1}s",
-			name,
-			r.evaluations,
-			r.distinct,
-			r.states,
-			r.transitions,
-			r.outcomes.len(),
-			r.violations.len(),
-			t.elapsed().as_secs_f64()
-		);
-		parts.push((name.to_string(), r));
+			handles.push(Err(h));
+		}
+	}
+	let mut parts = vec![];
+	for h in handles {
+		parts.push(match h {
+			Ok(x) => x,
+			Err(h) => h.join().expect("part thread"),
+		});
 	}
 	let m = eng.meta(tier);
 	let code = ev::finish(
@@ -184,4 +210,14 @@ fn selftest() {
 		println!("{} = {}", k, v);
 	}
 	println!("digest {} validate={:?} total {:?}", f.digest(), chain.validate(false), t0.elapsed());
+}
+
+#[allow(dead_code)]
+fn dbg03() {
+	uni::init_thread();
+	let sc = uni::Scratch::new("dbg");
+	let mut tb = chainx::TreeBuilder::new(&sc, 7, true);
+	let g = tb.tree.gen.header.clone();
+	eprintln!("gen td {} head {:?}", g.total_difficulty().to_num(), tb.chain.head().unwrap());
+	tb.add_with_difficulty("x", None, &uni::BlockSpec::empty(10), 1);
 }
